@@ -453,7 +453,22 @@ namespace sim
 			, command()
 			, ips.front().endpoint().address().to_string().c_str()
 			, ips.front().endpoint().port());
-		open_forward_connection(ips.front().endpoint());
+
+		// the address of the request has been resolved, carry the command out
+		// as for a request that named an IP address
+		asio::ip::tcp::endpoint target = ips.front().endpoint();
+		if (m_command == 2)
+		{
+			bind_connection(target);
+		}
+		else if (m_command == 3)
+		{
+			udp_associate(target);
+		}
+		else
+		{
+			open_forward_connection(target);
+		}
 	}
 
 	void socks_connection::open_forward_connection(const asio::ip::tcp::endpoint& target)
